@@ -37,18 +37,18 @@ theorem initMeta_acc (w : World) (y x : Id) (hxy : x ≠ y) : ((w.initMeta y).me
   · simp [World.updMeta, World.upd, Metas.set, hxy]
 
 theorem CountsH.of_count {w : World} {E E' : List Id} (h : CountsH w E) (hc : ∀ x, E'.count x = E.count x) : CountsH w E' :=
-  ⟨fun x hx => by rw [hc]; exact h.le x hx, fun x hx => by rw [hc]; exact h.fresh x hx, h.frames, h.pcb, h.mfresh⟩
+  ⟨fun x => by rw [hc]; exact h.le x, fun x hx => by rw [hc]; exact h.fresh x hx, h.frames, h.pcb, h.mfresh⟩
 
 /-- Leaking pointers in flight (unwinding) keeps the invariant. -/
 theorem CountsH.forget {w : World} {E E' : List Id} (h : CountsH w E) (hc : ∀ x, E'.count x ≤ E.count x) : CountsH w E' :=
-  ⟨fun x hx => by have := h.le x hx; have := hc x; omega, fun x hx => by have := h.fresh x hx; have := hc x; omega, h.frames, h.pcb, h.mfresh⟩
+  ⟨fun x => by have := h.le x; have := hc x; omega, fun x hx => by have := h.fresh x hx; have := hc x; omega, h.frames, h.pcb, h.mfresh⟩
 
 /-- A change that touches neither pointers nor counts nor liveness. -/
 theorem CountsH.same {w w' : World} {E : List Id} (h : CountsH w E) (hr : ∀ x, refs w' x = refs w x)
-    (hrc : ∀ x, (w'.heap x).rc = (w.heap x).rc) (hbl : ∀ x, (w'.heap x).boxLive = true → (w.heap x).boxLive = true)
+    (hrc : ∀ x, (w'.heap x).rc = (w.heap x).rc)
     (hn : w'.next = w.next) (hst : ∀ f ∈ w'.stack, f ∈ w.stack) (hpc : ∀ x ∈ w'.pc, x ∈ w.pc ∨ x < w.next)
     (hm : ∀ x, w.next ≤ x → (w'.metas x).accessible = false) : CountsH w' E :=
-  ⟨fun x hx => by rw [hr, hrc]; exact h.le x (hbl x hx),
+  ⟨fun x => by rw [hr, hrc]; exact h.le x,
    fun x hx => by rw [hr]; exact h.fresh x (by rw [← hn]; exact hx),
    fun f hf i hi => by rw [hn]; exact h.frames f (hst f hf) i hi,
    fun x hx => by rw [hn]; rcases hpc x hx with h1 | h1; exact h.pcb x h1; exact h1,
@@ -58,7 +58,7 @@ theorem CountsH.congr {w w' : World} {E : List Id} (h : CountsH w E) (hH : w'.H 
     (hst : w'.stack = w.stack) (hn : w'.next = w.next) (hheap : w'.heap = w.heap) (hpc : w'.pc = w.pc)
     (hm : w'.metas = w.metas) : CountsH w' E :=
   h.same (fun x => refs_congr w w' x hH hs (by rw [hst]) hn (fun u _ => by rw [hheap])) (fun x => by rw [hheap])
-    (fun x hx => by rw [← hheap]; exact hx) hn (fun f hf => by rw [← hst]; exact hf) (fun x hx => Or.inl (by rw [← hpc]; exact hx))
+    hn (fun f hf => by rw [← hst]; exact hf) (fun x hx => Or.inl (by rw [← hpc]; exact hx))
     (fun x hx => by rw [hm]; exact h.mfresh x hx)
 
 theorem CountsH.ret {w : World} {E : List Id} (h : CountsH w E) (r : Ret) : CountsH { w with ret := r } E :=
@@ -70,7 +70,7 @@ theorem CountsH.emit {w : World} {E : List Id} (h : CountsH w E) (e : Event) : C
 /-- Side-record updates: of an allocated object, or ones that never make a record accessible. -/
 theorem CountsH.updMeta {w : World} {E : List Id} (h : CountsH w E) (y : Id) (F : Meta → Meta)
     (hy : y < w.next ∨ ∀ m : Meta, (F m).accessible = true → m.accessible = true) : CountsH (w.updMeta y F) E :=
-  h.same (fun x => rfl) (fun x => rfl) (fun x hx => hx) rfl (fun f hf => hf) (fun x hx => Or.inl hx)
+  h.same (fun x => rfl) (fun x => rfl) rfl (fun f hf => hf) (fun x hx => Or.inl hx)
     (fun x hx => by
       by_cases hxy : x = y
       · subst hxy
@@ -90,56 +90,63 @@ theorem CountsH.raiseLogged {w : World} {E : List Id} (h : CountsH w E) : Counts
 
 /-- An update of one object that keeps its pointer fields, count and liveness. -/
 theorem CountsH.upd_same {w : World} {E : List Id} (h : CountsH w E) (t : Id) (F : Obj → Obj)
-    (hF : fieldsOf (F (w.heap t)) = fieldsOf (w.heap t)) (hrc : (F (w.heap t)).rc = (w.heap t).rc)
-    (hbl : (F (w.heap t)).boxLive = true → (w.heap t).boxLive = true) : CountsH (w.upd t F) E := by
+    (hF : fieldsOf (F (w.heap t)) = fieldsOf (w.heap t)) (hrc : (F (w.heap t)).rc = (w.heap t).rc) : CountsH (w.upd t F) E := by
   apply h.same (fun x => refs_upd_same w t F x hF)
   · intro x; by_cases hx : x = t
     · subst hx; simpa using hrc
     · simp [upd, Heap.set, hx]
-  · intro x hx; by_cases hxt : x = t
-    · subst hxt; exact hbl (by simpa using hx)
-    · simpa [upd, Heap.set, hxt] using hx
   · rfl
   · intro f hf; exact hf
   · intro x hx; exact Or.inl hx
   · exact h.mfresh
 
 theorem CountsH.removeFromList {w : World} {E : List Id} (h : CountsH w E) (y : Id) : CountsH (w.removeFromList y) E :=
-  h.same (fun x => by simp) (fun x => by simp) (fun x hx => by simpa using hx) (by simp) (fun f hf => by simpa using hf)
+  h.same (fun x => by simp) (fun x => by simp) (by simp) (fun f hf => by simpa using hf)
     (fun x hx => Or.inl (pc_removeFromList_sub w y x hx)) (fun x hx => by rw [removeFromList_metas]; exact h.mfresh x hx)
 
 theorem CountsH.addToList {w : World} {E : List Id} (h : CountsH w E) (y : Id) (hy : y < w.next) : CountsH (w.addToList y) E :=
-  h.same (fun x => by simp) (fun x => by simp) (fun x hx => by simpa using hx) (by simp) (fun f hf => by simpa using hf)
+  h.same (fun x => by simp) (fun x => by simp) (by simp) (fun f hf => by simpa using hf)
     (fun x hx => by rcases pc_addToList_sub w y x hx with h1 | h1; exact Or.inl h1; exact Or.inr (h1 ▸ hy))
     (fun x hx => by rw [addToList_metas]; exact h.mfresh x hx)
 
 theorem CountsH.dropMetadata {w : World} {E : List Id} (h : CountsH w E) (y : Id) : CountsH (w.dropMetadata y) E :=
-  h.same (fun x => by simp) (fun x => by simp) (fun x hx => by simpa using hx) (by simp) (fun f hf => by simpa using hf)
+  h.same (fun x => by simp) (fun x => by simp) (by simp) (fun f hf => by simpa using hf)
     (fun x hx => Or.inl (by unfold World.dropMetadata at hx; split at hx <;> (try split at hx) <;> exact hx))
     (acc_of_mono h (dropMetadata_acc w y))
 
 theorem CountsH.initMeta {w : World} {E : List Id} (h : CountsH w E) (y : Id) (hy : y < w.next) : CountsH (w.initMeta y) E :=
-  h.same (fun x => by simp) (fun x => by simp) (fun x hx => by simpa using hx) (by simp) (fun f hf => by simpa using hf)
+  h.same (fun x => by simp) (fun x => by simp) (by simp) (fun f hf => by simpa using hf)
     (fun x hx => Or.inl (by unfold World.initMeta at hx; split at hx <;> exact hx))
     (fun x hx => by
       have hxy : x ≠ y := fun e => by subst e; exact absurd hy (Nat.not_lt.2 hx)
       rw [initMeta_acc w y x hxy]; exact h.mfresh x hx)
 
 theorem CountsH.weakDrop {w : World} {E : List Id} (h : CountsH w E) (r : WRef) : CountsH (w.weakDrop r) E :=
-  h.same (fun x => by simp) (fun x => by simp) (fun x hx => by simpa using hx) (by simp) (fun f hf => by simpa using hf)
+  h.same (fun x => by simp) (fun x => by simp) (by simp) (fun f hf => by simpa using hf)
     (fun x hx => Or.inl (by unfold World.weakDrop at hx; cases r <;> simp only at hx <;> (try split at hx) <;> exact hx))
     (acc_of_mono h (weakDrop_acc w r))
 
-theorem CountsH.freeBox {w : World} {E : List Id} (h : CountsH w E) (y : Id) : CountsH (w.freeBox y) E :=
-  h.same (fun x => by simp) (fun x => by simp)
-    (fun x hx => by rw [freeBox_boxLive] at hx; by_cases hxy : x = y <;> simp_all)
-    (by simp) (fun f hf => by simpa using hf) (fun x hx => Or.inl hx) h.mfresh
+/-- Releasing a box: its count is reset, so nothing may point to it any more (`hz`: the guard under which
+the code frees — count 0 — or the consumption of the last pointer). -/
+theorem CountsH.freeBox {w : World} {E : List Id} (h : CountsH w E) (y : Id) (hz : refs w y + E.count y = 0) :
+    CountsH (w.freeBox y) E :=
+  ⟨fun x => by
+      rw [freeBox_refs, freeBox_rc]
+      by_cases hxy : x = y
+      · subst hxy; simp; omega
+      · simp [hxy]; exact h.le x,
+   fun x hx => by rw [freeBox_refs]; exact h.fresh x hx,
+   fun f hf i hi => h.frames f hf i hi, fun x hx => h.pcb x hx, h.mfresh⟩
+
+theorem CountsH.freeBox_of_rc {w : World} {E : List Id} (h : CountsH w E) (y : Id) (hz : (w.heap y).rc = 0) :
+    CountsH (w.freeBox y) E :=
+  h.freeBox y (by have := h.le y; omega)
 
 /-- `Cc::clone` / successful upgrade: the count goes up, the new pointer is in flight. -/
 theorem CountsH.clone {w : World} {E : List Id} (h : CountsH w E) (y : Id) (hy : y < w.next) : CountsH (w.cloneOk y) (y :: E) := by
   refine ⟨?_, ?_, ?_, ?_, ?_⟩
-  · intro x hx
-    have := h.le x (by simpa using hx)
+  · intro x
+    have := h.le x
     rw [refs_cloneOk, cloneOk_rc, List.count_cons]
     by_cases hxy : y = x
     · subst hxy; simp; omega
@@ -161,14 +168,14 @@ theorem CountsH.clone {w : World} {E : List Id} (h : CountsH w E) (y : Id) (hy :
 theorem CountsH.decr {w : World} {E : List Id} {y : Id} (h : CountsH w (y :: E)) : CountsH (w.upd y fun o => { o with rc := o.rc - 1 }) E := by
   have hy : y < w.next := h.lt_of_mem (List.mem_cons_self ..)
   refine ⟨?_, ?_, ?_, ?_, h.mfresh⟩
-  · intro x hx
+  · intro x
     rw [refs_upd_same w y _ x rfl]
     by_cases hxy : y = x
     · subst hxy
-      have := h.le y (by simpa using hx)
+      have := h.le y
       simp [List.count_cons] at this ⊢; omega
     · have hxy' : ¬ x = y := fun e => hxy e.symm
-      have := h.le x (by simpa [upd, Heap.set, hxy'] using hx)
+      have := h.le x
       simp [List.count_cons, hxy] at this
       simp [upd, Heap.set, hxy']; omega
   · intro x hx
@@ -187,10 +194,10 @@ theorem CountsH.putTable {w : World} {E : List Id} {y : Id} (h : CountsH w (y ::
     rw [hnone] at this
     simpa using this
   refine ⟨?_, ?_, h.frames, h.pcb, h.mfresh⟩
-  · intro x hx
+  · intro x
     have hh : (w.setH k (some y)).heap x = w.heap x := rfl
-    rw [hh] at hx ⊢
-    have := h.le x hx
+    rw [hh]
+    have := h.le x
     rw [e]; simp [List.count_cons] at this ⊢; omega
   · intro x hx
     have hx' : w.next ≤ x := hx
@@ -212,10 +219,10 @@ theorem CountsH.takeTable {w : World} {E : List Id} {y : Id} (h : CountsH w E) {
     rw [hsome] at this
     simpa using this
   refine ⟨?_, ?_, h.frames, h.pcb, h.mfresh⟩
-  · intro x hx
+  · intro x
     have hh : (w.setH k none).heap x = w.heap x := rfl
-    rw [hh] at hx ⊢
-    have h1 := h.le x hx
+    rw [hh]
+    have h1 := h.le x
     have h2 := e x
     simp [List.count_cons] at h2 ⊢; omega
   · intro x hx
@@ -229,10 +236,10 @@ theorem CountsH.takeTable {w : World} {E : List Id} {y : Id} (h : CountsH w E) {
 theorem CountsH.pushFrame {w : World} {E : List Id} (f : Frame) (h : CountsH w (f.holds ++ E))
     (hids : ∀ i ∈ f.ids, i < w.next) : CountsH (w.push f) E := by
   refine ⟨?_, ?_, ?_, h.pcb, h.mfresh⟩
-  · intro x hx
+  · intro x
     have hh : (w.push f).heap x = w.heap x := rfl
-    rw [hh] at hx ⊢
-    have := h.le x hx
+    rw [hh]
+    have := h.le x
     rw [refs_push]; simp [List.count_append] at this; omega
   · intro x hx
     have hx' : w.next ≤ x := hx
@@ -292,9 +299,8 @@ theorem CountsH.updFields {w : World} {E : List Id} (t : Id) (F : Obj → Obj) (
     · subst hx; simp [hrc, hbl]
     · simp [upd, Heap.set, hx]
   refine ⟨?_, ?_, h.frames, h.pcb, h.mfresh⟩
-  · intro x hx
-    rw [(hheap x).2] at hx
-    have h1 := h.le x hx
+  · intro x
+    have h1 := h.le x
     have h2 := e x
     rw [(hheap x).1]
     simp only [List.count_append] at h1 ⊢
